@@ -349,7 +349,7 @@ var PProp = pbt.Register(pbt.Prop[PCase]{
 	Name: "TestProtoRoundTrip",
 	Rule: "generated proto3 schema (every scalar kind, enums, nested/recursive messages, repeated, maps with supported key kinds) + reference-encoded message with finite floats (uint64 >= 2^63, fixed32 >= 2^31, negative int32, empty strings/bytes in lists and maps); m -> p2j -> j2p must be proto.Equal to m under protobuf-go, and p2j again must denote the same JSON value; every step must succeed, also right after conversions of malformed documents / a truncated message that the same converters rejected; non-trivial = root object with >= 3 members",
 	Gen: func(t *rapid.T) PCase {
-		sc := pmodel.GenSchema(t, pmodel.GenOpts{AllKinds: rapid.IntRange(0, 2).Draw(t, "allKinds") == 0, KeyKinds: pmodel.SupportedKeyKinds})
+		sc := pmodel.GenSchema(t, pmodel.GenOpts{JSONNames: true, AllKinds: rapid.IntRange(0, 2).Draw(t, "allKinds") == 0, KeyKinds: pmodel.SupportedKeyKinds})
 		comp, err := pmodel.Compile(sc.Render(), sc.Main)
 		if err != nil {
 			t.Fatalf("generator produced an invalid schema: %v", err)
